@@ -325,11 +325,14 @@ class Monitor:
                     if any(T.arrive(c, ott)[0] <= tt[0] and T.arrive(c, ott) > tt for c in conns):
                         return "integer-time-visibility"
         # ... or the event that is due now was already delivered prematurely for that reason
+        # (the same event, or -- one value per source and attribute -- a newer one that
+        # superseded it in the buffer, was handed over at an earlier sub-step of this time step)
         if gv is None or gv == NONE or rg is None:
             rx = self._reply_of(xv)
             if rx and rx[0] == p:
                 for (t0, v0) in delivered.get((sid, attr, key), []):
-                    if v0 == xv and t0[0] == tt[0] and t0 < tt:
+                    r0 = self._reply_of(v0)
+                    if r0 and r0[0] == p and r0[1] >= rx[1] and t0[0] == tt[0] and t0 < tt:
                         return "integer-time-visibility"
         # F14: initial data declared on another connection from the same source attribute
         if self.cfg.get("cache", True) and conns and not any(c.get("init") for c in conns) \
